@@ -9,6 +9,8 @@ Ops
         → `name CheckHigherThan`, `check ok` | `check fail <limit> <input>`, (`int`: `msg <Display>` on fail)
   `notional <quantity> <price> <contract_size>`                 → `notional <v|none>`
   `notionalk <spot|perp|fut|opt> <contract_size> <quantity> <price>` → `csize <v>`, `notional <v|none>`
+        (also `opt-put-eu|opt-put-am|opt-put-bm|opt-call-am|opt-call-bm|perp-s7|fut-s7`: other option kinds /
+        exercise styles / settlement asset 7)
   `apd <current> <other>`                                       → `apd <~v|none>`
   `delta <instrument_delta> <contract_size> <B|S> <quantity>`   → `delta <v>` | `panic`
   `rm <state> C <cancel>… O <open>…`                            → `ac …`, `ao …`, `rc …`, `ro …`
@@ -58,6 +60,11 @@ def parseKind (k : String) (c : Rat) : Option Kind :=
   | "perp" => some (.perpetual c)
   | "fut" => some (.future c)
   | "opt" => some (.option c)
+  -- configuration-shape variants: put / call, American / Bermudan / European exercise, another settlement
+  -- asset - the model's `Kind` carries the contract size only (the code's `contract_size()` reads nothing else)
+  | "opt-put-eu" | "opt-put-am" | "opt-put-bm" | "opt-call-am" | "opt-call-bm" => some (.option c)
+  | "perp-s7" => some (.perpetual c)
+  | "fut-s7" => some (.future c)
   | _ => none
 
 def checkLines {α : Type} (fmt : α → String) (r : Except (CheckFailHigherThan α) Unit) : List String :=
